@@ -1192,3 +1192,32 @@ def case_r6_lazy_builtins():
     mm = map(lambda a, b: a + b, [1, 2, 3], _itl.count(100))
     return [before, first, list(log), list(m), log, numbered, firsts, pairs, zl, leftover, list(mm), sum(map(len, ["a", "bb"])),
             any(map(lambda v: v > 2, _itl.count())), dict(zip("ab", _itl.count()))]
+
+
+@_ft.singledispatch
+def _r6_literal(value):
+    return f"{value}"
+
+
+@_r6_literal.register
+def _(value: None):
+    return "nothing"
+
+
+@_r6_literal.register
+def _(value: bool):
+    return str(value).lower()
+
+
+@_r6_literal.register
+def _(value: str):
+    return f'"{value}"'
+
+
+def case_r6_dispatch_on_none():
+    err = None
+    try:
+        isinstance(3, 4)
+    except TypeError:
+        err = "TypeError"
+    return [_r6_literal(None), _r6_literal(True), _r6_literal("s"), _r6_literal(2.5), _r6_literal(7), isinstance(None, type(None)), err]
